@@ -112,6 +112,10 @@ tlstran_pipe_stop(void *arg)
 	nni_aio_stop(&p->txaio);
 	nni_aio_stop(&p->negoaio);
 	nng_stream_stop(p->tls);
+	if (ep == NULL) {
+		// pipe creation failed before the endpoint adopted the pipe
+		return;
+	}
 	nni_mtx_lock(&ep->mtx);
 	nni_list_node_remove(&p->node);
 	nni_mtx_unlock(&ep->mtx);
